@@ -271,7 +271,7 @@ fn fuzz_campaign(report: &mut Report) {
     if report.findings.is_open("C17", "typename-less-spread-cycle-stack-overflow") {
         std::env::set_var("VERIF_C17_SKIP_KNOWN", "1");
     }
-    match crate::fuzz::run_target("c17_codegen", report.seed, 3_000_000, 20) {
+    match crate::fuzz::run_target("c17_codegen", report.seed, 1_000_000, 20) {
         Err(e) => {
             report.assumptions.push(format!("libFuzzer tier unavailable, proptest campaign only: {}", e));
             report.extra.insert("fuzz".into(), json!({"available": false, "why": e}));
